@@ -13,7 +13,7 @@ import time
 wt, prop, name = sys.argv[1:4]
 extra = sys.argv[4:]
 seed = os.path.join(wt, "seed")
-dst = "/verif/seeded/" + name
+dst = os.path.join(os.path.dirname(os.path.dirname(os.path.abspath(__file__))), "seeded", name)
 os.makedirs(dst, exist_ok=True)
 meta = {"property": prop, "worktree": wt, "ran": []}
 
